@@ -16,7 +16,8 @@ for d in "$ROOT"/seeded/*/; do
   [ -n "$by" ] && id=$by   # a change written for one property that belongs to another's check
   if ! git -C "$REPO" apply --check "$d/patch.diff" 2>/dev/null; then echo "$name: PATCH DOES NOT APPLY"; bad=1; continue; fi
   git -C "$REPO" apply "$d/patch.diff"
-  out=$("$ROOT/check" "$id" quick 2>&1); r=$?
+  tier=$(python3 -c "import json;print(json.load(open('$d/meta.json')).get('tier','quick'))" 2>/dev/null)   # a few changes show only in the thorough tier (meta.json says so)
+  out=$("$ROOT/check" "$id" "${tier:-quick}" 2>&1); r=$?
   git -C "$REPO" checkout -q -- . ; git -C "$REPO" clean -fdq
   cls=$(echo "$out" | grep -E "^violation class" | sed 's/ cases=.*//; s/violation class=//' | tr '\n' ' ' | cut -c1-150)
   if [ $r -eq 1 ]; then echo "$name: detected [$cls]"; else echo "$name: MISSED (exit $r)"; bad=1; fi
